@@ -318,15 +318,27 @@ Qed.
 
 End Gen.
 
-(* ------------------------------------------------------------------ instance: the kernel table stays well-formed *)
-Lemma KW_fsop bad e o : fsopP o -> hoare KW bad ptrue (do_op e o) (fun _ => ptrue).
-Proof. intros H. apply KW_do_op. destruct o; cbn in H |- *; try contradiction; reflexivity. Qed.
-Lemma KW_mntop bad e o : mntopP o -> hoare KW bad ptrue (do_op e o) (fun _ => ptrue).
-Proof. intros H. apply KW_do_op. destruct o; cbn in H |- *; try contradiction; try reflexivity. exact H. Qed.
-Lemma KW_rf bad c sk ld : LDI sk ld ->
-  hs KW bad (refresh_mounts c ld) (fun ld' => LDI sk ld' /\ ld_order ld' = ld_order ld).
-Proof. apply refresh_hs. Qed.
-#[export] Hint Resolve KW_fsop KW_mntop KW_write_text KW_write_atomically KW_rf : kwinst.
+(* ------------------------------------------------------------------ instance: no invariant at all *)
+(* ProbeMounts cannot panic on a table the kernel model renders (KernelP.probe_of_total), so
+   "never Diverged / Panicked" needs no invariant on the state. *)
+Definition TT : wpred := fun _ => True.
+Lemma TT_op bad e o : hoare TT bad ptrue (do_op e o) (fun _ => ptrue).
+Proof. apply hoare_do_op. intros; exact I. Qed.
+Lemma TT_fsop bad e o : fsopP o -> hoare TT bad ptrue (do_op e o) (fun _ => ptrue).
+Proof. intros _. apply TT_op. Qed.
+Lemma TT_mntop bad e o : mntopP o -> hoare TT bad ptrue (do_op e o) (fun _ => ptrue).
+Proof. intros _. apply TT_op. Qed.
+Lemma TT_wt bad e p c0 : hoare TT bad ptrue (fs_write_text e p c0) (fun _ => ptrue).
+Proof. apply hoare_write_text. intros; exact I. Qed.
+Lemma TT_wa bad e p ch : hoare TT bad ptrue (write_file_atomically e p ch) (fun _ => ptrue).
+Proof. apply hoare_write_atomically; intros; exact I. Qed.
+Lemma TT_rf bad c sk ld : LDI sk ld ->
+  hs TT bad (refresh_mounts c ld) (fun ld' => LDI sk ld' /\ ld_order ld' = ld_order ld).
+Proof.
+  intros H s _ _. rewrite refresh_eq. destruct (probe_of_total (w_ks (s_w s))) as (ms & ds & ->).
+  split; [exact I|]. split; [now apply refresh_LDI|reflexivity].
+Qed.
+#[export] Hint Resolve TT_fsop TT_mntop TT_wt TT_wa TT_rf : ttinst.
 
 (* ------------------------------------------------------------------ one invocation *)
 Definition no_bad {A} (o : outcome A) : Prop := match o with Diverged | Panicked => False | _ => True end.
@@ -335,13 +347,13 @@ Definition with_layers (c : cfgT) (um : users_map) (body : ldefs -> M ldefs) : M
   f <- get_fs ;; guard (base_set_up c f) ;;; ld <- get_layers c um ;; ld' <- body ld ;; ret (Some ld').
 
 Lemma with_layers_nd c um body s :
-  KW (s_w s) -> check_inheritance (read_layer_files c (w_fs (s_w s))) = true ->
+  check_inheritance (read_layer_files c (w_fs (s_w s))) = true ->
   NoDup (children (w_fs (s_w s)) (c_layers c)) ->
   (forall sk ld, LDI sk ld -> SKF sk -> (forall n, In n (ld_order ld) -> sk_has sk n) ->
-     hs KW true (body ld) (fun _ => True)) ->
+     hs TT true (body ld) (fun _ => True)) ->
   no_bad (fst (with_layers c um body s)).
 Proof.
-  intros HK HC ND Hbody. unfold with_layers, bind at 1, get_fs. cbv beta iota.
+  intros HC ND Hbody. unfold with_layers, bind at 1, get_fs. cbv beta iota.
   unfold bind at 1. destruct (base_set_up c (w_fs (s_w s))); cbn [guard]; [|exact I].
   unfold ret at 1. cbv beta iota. unfold bind at 1.
   destruct (get_layers_spec c um s) as (o & E & Ho). rewrite E.
@@ -351,7 +363,7 @@ Proof.
     assert (HF : SKF (skel m0)) by (apply SKF_of; [exact HA|now apply rlf_nodup]).
     assert (Hord : forall n, In n (ld_order ld) -> sk_has (skel m0) n).
     { intros n Hn. destruct (normalize_names _ _ HN n Hn) as (l & Hl & <-). eapply sk_has_in; eauto. }
-    pose proof (Hbody _ _ HL HF Hord s HK I) as Hb. unfold bind.
+    pose proof (Hbody _ _ HL HF Hord s I I) as Hb. unfold bind.
     destruct (body ld s) as [[ld'| | | |] s']; cbn; auto.
   - destruct Ho as [_ Ho]. pose proof (normalize_some _ (check_inh_allreach _ HC)). contradiction.
 Qed.
@@ -362,25 +374,25 @@ Proof.
 Qed.
 
 Theorem run_command_no_bad e c um cmd s :
-  KW (s_w s) -> check_inheritance (read_layer_files c (w_fs (s_w s))) = true ->
+  check_inheritance (read_layer_files c (w_fs (s_w s))) = true ->
   NoDup (children (w_fs (s_w s)) (c_layers c)) ->
   no_bad (fst (run_command e c um cmd s)).
 Proof.
-  intros HK HC ND.
+  intros HC ND.
   assert (W : forall body, (forall sk ld, LDI sk ld -> SKF sk -> (forall n, In n (ld_order ld) -> sk_has sk n) ->
-     hs KW true (body ld) (fun _ => True)) -> no_bad (fst (with_layers c um body s))).
+     hs TT true (body ld) (fun _ => True)) -> no_bad (fst (with_layers c um body s))).
   { intros body Hb. now apply with_layers_nd. }
   destruct cmd; cbn [run_command]; try apply apply_op_nd.
-  - (* init *) pose proof (init_base_hs KW true e (KW_fsop true e) (KW_write_text true e) c s HK I) as H. unfold bind.
+  - (* init *) pose proof (init_base_hs TT true e (TT_fsop true e) (TT_wt true e) c s I I) as H. unfold bind.
     destruct (init_base e c s) as [[u| | | |] s']; cbn; auto.
-  - apply (W (fun ld => add_layer e c ld name base configfile)). intros. eapply add_layer_hs with (sk := sk); eauto with kwinst.
-  - apply (W (fun ld => remove_layer e c ld name files)). intros. eapply remove_layer_hs with (sk := sk); eauto with kwinst.
-  - apply (W (fun ld => rename_layer e c ld a b0)). intros. eapply rename_layer_hs with (sk := sk); eauto with kwinst.
-  - apply (W (fun ld => rebase_layer e c ld a b0)). intros. eapply rebase_layer_hs with (sk := sk); eauto with kwinst.
-  - apply (W (fun ld => makedirs e c ld a)). intros. eapply hs_weaken; [eapply makedirs_hs with (sk := sk); eauto with kwinst|auto].
-  - apply (W (fun ld => mount_layer e c ld a)). intros. eapply hs_weaken; [eapply mount_layer_hs with (sk := sk); eauto with kwinst|auto].
-  - apply (W (fun ld => unmount e c ld a all)). intros. eapply unmount_hs with (sk := sk); eauto with kwinst.
-  - apply (W (fun ld => shake e c ld)). intros. eapply shake_hs; eauto with kwinst.
-  - apply (W (fun ld => chroot_prepare e c ld a)). intros. eapply chroot_hs with (sk := sk); eauto with kwinst.
+  - apply (W (fun ld => add_layer e c ld name base configfile)). intros. eapply add_layer_hs with (sk := sk); eauto with ttinst.
+  - apply (W (fun ld => remove_layer e c ld name files)). intros. eapply remove_layer_hs with (sk := sk); eauto with ttinst.
+  - apply (W (fun ld => rename_layer e c ld a b0)). intros. eapply rename_layer_hs with (sk := sk); eauto with ttinst.
+  - apply (W (fun ld => rebase_layer e c ld a b0)). intros. eapply rebase_layer_hs with (sk := sk); eauto with ttinst.
+  - apply (W (fun ld => makedirs e c ld a)). intros. eapply hs_weaken; [eapply makedirs_hs with (sk := sk); eauto with ttinst|auto].
+  - apply (W (fun ld => mount_layer e c ld a)). intros. eapply hs_weaken; [eapply mount_layer_hs with (sk := sk); eauto with ttinst|auto].
+  - apply (W (fun ld => unmount e c ld a all)). intros. eapply unmount_hs with (sk := sk); eauto with ttinst.
+  - apply (W (fun ld => shake e c ld)). intros. eapply shake_hs; eauto with ttinst.
+  - apply (W (fun ld => chroot_prepare e c ld a)). intros. eapply chroot_hs with (sk := sk); eauto with ttinst.
   - apply (W (fun ld => ret ld)). intros. now apply hs_ret.
 Qed.
